@@ -377,7 +377,11 @@ func runC06CLI(c *core.Ctx) {
 				// delete every tracked file, then add q: exactly the selection must be unstaged
 				// (for a deleted directory a refusal without change is also accepted by C04)
 				for p := range idx0 {
-					w.Edit("rm", p, nil)
+					if i := strings.Index(p, "/"); i > 0 {
+						w.Edit("rmdir", p[:i], nil) // the directory itself must be gone, not merely empty
+					} else {
+						w.Edit("rm", p, nil)
+					}
 				}
 				st := w.Goit("add", q)
 				idx1, _ := idx(st.Post)
